@@ -45,6 +45,10 @@ CHECKS = {
    text="For data sets of n = 2..5 points with fully symbolic coordinates the tuples returned by linear_fitting, quadratic_fitting and general_fitting (bases (x^2,x,1), (x,1), (x)) are proved to satisfy the normal equations (residuals orthogonal to every basis function: exact rational identities checked by the ring normaliser on the terms produced by symbolic execution of set/_compute_parameters/the fit), general(x^2,x,1) = quadratic and general(x,1) = linear coefficient by coefficient, the accumulated sums are identical for permuted points and for every input form (lists, tuples, flat arguments, copy), ZeroDivisionError is raised exactly for a determinant below the tolerance; correlation_coeff: r*sqrt(dx)*sqrt(dy) = n Sxy - Sx Sy with dx dy - num^2 equal to an explicit sum of squares (Lagrange identity, so |r| <= 1), affine invariance, sign flip and r = +-1 for collinear data as identities.",
    note="R-mode; math.fsum assumed exact; n > 5, other basis functions (sin, cos) and the relative 1e-6 agreement with an exact rational solution of the normal equations in binary64 are bounded stand-ins on well-conditioned seeded data (300/20000 sets, all permutations of sets of <= 5 points). One genuine defect (two-function general fit) found and repaired.",
    technique="contract-based deductive verification: AST symbolic execution on symbolic data lists + exact ring normaliser + z3; bounded run-time contracts against exact rational arithmetic", ref="DESIGN.md §3 C17"),
+ "C11": dict(category="proof",
+   text="kepler_equation: the anomaly reduction (f*m = M mod 2 pi, 0 <= m <= pi) and the Sinnott bisection are verified from the AST with an inductive loop invariant about the true solution E* of E - e sin E = m: the bracket [e0-2d, e0+2d] contains E*, stays in [0, pi], and |e0 - previous e0| = 2d; initiation, preservation (using only that sine is 1-Lipschitz, i.e. E - e sin E strictly increasing for e < 1) and use at exit give |e0 - E*| <= 1e-10 rad and a residual <= (1+e) 1e-10 rad < 5e-8 degree for EVERY eccentricity in [0,1) and every mean anomaly; the returned E is f*e0 in degrees (same half revolution), v = 2 atan(sqrt((1+e)/(1-e)) tan(E/2)). Also proved: vis-viva relations between velocity, velocity_perihelion and velocity_aphelion (squares, constants agree to 1e-5, product = circular speed squared), k = (1 + cos i)/2 in [0,1] for triangle-feasible distances, and 2 pi b <= length_orbit <= 2 pi a for both formulas (z3 NRA).",
+   note="R-mode; sine is an uninterpreted function with the Lipschitz and range facts instantiated per obligation; E* is a ghost constant defined by its equation (existence/uniqueness from continuity + monotonicity is argued in DESIGN.md, not machine-checked); termination of the loop is not proved. Bounded stand-ins: residual in binary64 for e up to 0.999999 and M in +-1e4 degrees incl. multiples of 180, node passages via Kepler's equation, continuity of the orbit length at e = 0.95.",
+   technique="contract-based deductive verification: inductive loop invariant + cuts on the real AST, z3 (portfolio) with instantiated Lipschitz/inverse-function facts; bounded run-time contracts for binary64", ref="DESIGN.md §3 C11"),
 }
 NA_REASON = "check not built yet (work in progress; DESIGN.md has the plan)"
 
